@@ -139,7 +139,12 @@ def invoke(tool, form, sb, style, outarg, unknown=False):
             # half of the path styles: every field kept, only levels strained out (the README example) -
             # the one selection for which copying or linking whole input files would be possible
             keep_all = "slash" in style or style.endswith("else")
-            if form == "api":
+            if unknown:
+                # asked not to tolerate missing variables (python class only: the entry point has no such
+                # option): one unknown name among known ones must be refused
+                from amr_kitchen.colander import Colander
+                Colander(plotfile=arg, output=outarg, variables=["f2", "nope", "f0"], allow_missing=False).strain()
+            elif form == "api":
                 from amr_kitchen.colander import Colander
                 if keep_all:
                     Colander(plotfile=arg, output=outarg, variables=["all"], limit_level=0).strain()
@@ -370,7 +375,8 @@ def run_forms(case, work, rec):
                 sb = Sandbox(os.path.join(work, f"fresh{nsb}"), case["seed"])
                 make_refY(sb)
     # unknown field: whatever the tool does, inputs stay untouched
-    if tool in ("mandoline_array", "pestle", "whip", "mandoline_plotfile"):
+    if tool in ("mandoline_array", "pestle", "whip", "mandoline_plotfile") or (tool == "colander" and form == "api"
+                                                                           and output == "explicit"):
         outarg, out_abs = explicit_out(tool, sb, None) if tool != "pestle" else (None, None)
         key = (tool, form, "unknown-field")
         pools.CTL.reset(mode="inproc", seed=1)
